@@ -167,6 +167,12 @@ def main_check(pid, spec, tier, seed, replay=None):
                 seen.add(c); cases.append(c)
         st = run_family(run, fam, cases, known_classes)
         log("[%s/%s] %s" % (pid, fam.name, st))
+    pre = getattr(spec, "inventory_break", None)
+    if pre:
+        why = pre()
+        if why:
+            log("INVENTORY: " + why)
+            run.corr_breaks.append(("inventory", why, "", ""))
     if not proof["ok"]:
         # a theorem no longer checks: the families above were the search for a failing input
         run.violation({"property": pid, "kind": "proof-broken", "theorems": proof["theorems"], "log": proof["log"][-3000:],
